@@ -59,6 +59,36 @@ is passed in EVERY run of the three PSF-photometry recipes (x representation x
 condition x geometry).  Tables are snapshotted deeply: class, column order, per
 column values / dtype / shape / unit / column class / mask / info, and meta.
 
+*Container arguments* (``ref/registry_containers.py``): dict / list arguments
+and the dictionaries a caller unpacks into ``**kwargs`` are merged with
+defaults, stripped of the keys the callee sets itself, appended to or converted
+-- on a copy or not may depend on what is in the container, so the *form* of the
+container is an axis: every subset of its optional entries from empty over
+partial to complete, in full product with the neighbouring axes (which columns
+the table has, dict / OrderedDict, list / tuple / ndarray values), plus rejected
+forms (the call raises, maybe after the merge).  make_model_image(params_map) =
+x_0 / y_0 {listed, column under own name} x flux / fwhm {listed, own name, no
+column} (36) x 2 classes x {valid, bad key, bad value}; param_ranges, the
+``**kwargs`` of make_model_params / make_psf_model_image / centroid_sources /
+EPSFFitter, meta / epsfs / grid_xypos of grid_from_epsfs, the lists of
+aperture_photometry / EPSFStars / LinkedEPSFStar / extract_stars likewise
+(coverage.container_arguments lists callable -> argument -> forms).  Containers
+are snapshotted deeply: class, keys in order, length, every value recursively.
+
+*Star geometries* of EPSFFitter / EPSFBuilder: a star is deep-copied before the
+fitted centre / flux / status is written, separately on every path; the path
+depends on where ``cutout_center`` lies relative to the cutout edge and on
+``fit_boxsize``, and the builder excludes failed stars after its third
+iteration.  Full product: geometry of the odd star {all centred, fit box touches
+the edge, sticks out left / right / bottom / top / corner, centre on the edge,
+centre outside the cutout, every star off-centre} (10) x fit_boxsize {5, (3, 7),
+11 == cutout, 13 > cutout} x star kind {EPSFStar, LinkedEPSFStar with the odd
+star first / second} x entry {EPSFFitter(), EPSFBuilder maxiters 1, EPSFBuilder
+5 iterations without convergence (exclusion branch), build_epsf(init_epsf)} =
+480 calls (thorough); quick: fit_boxsize {5, 11} and the five-iteration builder
+with plain EPSFStar only = 200 calls.  The EPSFStars collection, every star in
+it (incl. the private fit-status / exclusion flags) and the ePSF are watched.
+
 Every caller-held object (data, error, mask, background / threshold maps,
 kernels, footprints, position arrays, label arrays, column lists, plot origins,
 tables, PSF models, apertures, segmentation images, NDData, WCS, files on disk,
@@ -133,7 +163,23 @@ RULE = ('full Cartesian product: every registry recipe (one per public entry poi
         'product); make_model_image / params_table_to_models = every subset of the optional columns {id, flux, fwhm, '
         'model_shape, local_bkg[, name]} x {QTable, Table} x flux {plain, Quantity}; extract_stars catalogues = every subset '
         'of {id, x+y, skycoord, extra column} giving a position x {Table, QTable} for one image, linked images and an image '
-        'with WCS; the minimal canonical init table is also passed in every run of the PSF-photometry recipes')
+        'with WCS; the minimal canonical init table is also passed in every run of the PSF-photometry recipes.  CONTAINER ARGUMENTS '
+        '(dict / list arguments and dictionaries unpacked into **kwargs; coverage.container_arguments): the form of the container '
+        'is the axis -- every subset of its optional entries, empty .. partial .. complete, x the neighbouring axes: '
+        'make_model_image(params_map) = x_0 {listed, own-name column} x y_0 {same} x flux {listed, own-name column, no column} x '
+        'fwhm {same} (36) x {dict, OrderedDict} x {valid, + key that is no model parameter, + value that is no column} = 216; '
+        'make_random_models_table(param_ranges) = 16 subsets x {list, tuple, ndarray} values x {dict, OrderedDict}; '
+        'make_model_params / make_psf_model_image **kwargs = 8 subsets x 3 value classes; grid_from_epsfs = meta {None, 16 subsets '
+        'of {unrelated key, the three keys the function sets}} x 2 classes, grid_xypos {list of tuples, list of lists, ndarray} x '
+        'meta {None, empty, complete}; centroid_sources **kwargs = 8 subsets (quadratic) + {empty, error} (1dg, 2dg) x {1, 3} '
+        'positions as lists; EPSFFitter **fitter_kwargs = 16 subsets incl. the keys the class removes; aperture_photometry list of '
+        '0..3 apertures; EPSFStars / LinkedEPSFStar lists of 0..3 / 1..2 stars and a list holding a LinkedEPSFStar; extract_stars '
+        'data {NDData, [1], [2]} x catalogs {Table, [1], [2]}.  EPSF STAR GEOMETRIES (coverage.epsf_star_geometry): geometry of '
+        'the odd star (10: all centred, fit box touching the cutout edge, sticking out on each side / the corner, centre on the '
+        'edge, centre outside, every star off-centre) x fit_boxsize x star kind {EPSFStar, LinkedEPSFStar odd star first / second} '
+        'x entry {EPSFFitter(), EPSFBuilder maxiters=1, EPSFBuilder 5 iterations without convergence, build_epsf(init_epsf)}: '
+        'thorough fit_boxsize {5, (3, 7), 11, 13} = 480 calls; quick fit_boxsize {5, 11} and the 5-iteration builder with plain '
+        'EPSFStar only = 200 calls')
 ASSUMPTIONS = ['numpy / astropy containers report their own state faithfully (tobytes, mask, fill_value, unit)',
                'a cached lazyproperty value appearing in a caller-held photutils object is not a modification',
                'one scene (41x47, four sources) per condition, handed over whole or as one of the frames of the geometry alphabet '
@@ -159,6 +205,15 @@ ASSUMPTIONS = ['numpy / astropy containers report their own state faithfully (to
                'conditions / geometries only the baseline table and the minimal canonical table are passed; column-name '
                'conventions: 5 of the 14 accepted x/y spellings and 4 of the 10 flux spellings (one per class: bare, model '
                'parameter, canonical, finder output, fit result)',
+               'container arguments: the callables / arguments listed under coverage.container_arguments (plus the lists the '
+               'member argument sets and the recipes hand over: columns, labels, ids, apertures, shapes); other sequence-valued '
+               'arguments (positions, box sizes, xycen, radii ...) are handed over as ndarrays / tuples and have one form; a '
+               'dictionary unpacked into **kwargs cannot be changed at its top level by the callee (Python copies it): it is watched '
+               'for its mutable values; Ellipse.fit_isophote(isophote_list) appends to the list by documentation and is not a case',
+               'EPSF star geometries: 11x11 cutouts of the three scene sources, the odd star is star 0, sub-pixel offset (0.2, 0.1), '
+               'oversampling 2; fit_boxsize=None is rejected by the EPSFFitter constructor of the pinned tree (TypeError) and is not '
+               'in the alphabet; quick tier: fit_boxsize {5, 11} and the linked kinds without the five-iteration builder (the '
+               'thorough tier has the full product)',
                'remote data loaders (photutils.datasets.load_*) need the network and are not called (coverage.uncovered); '
                'abstract base classes, mixins and the aperture descriptor classes are exercised through a concrete class '
                '(coverage.covered_through_concrete_class, verified member by member)']
@@ -282,12 +337,14 @@ def site_of(label, arg):
     return f'{base}:{arg}'
 
 
-def run_combo(acc, name, rep, cond, mf, seed, sample=False, geom='base'):
-    c = R.run_recipe(name, rep, cond, seed, maskform=mf, geom=geom, extras=True)
+def run_combo(acc, name, rep, cond, mf, seed, sample=False, geom='base', full=False):
+    c = R.run_recipe(name, rep, cond, seed, maskform=mf, geom=geom, extras=True, full=full)
     if c is None:
         acc.skip('combination not applicable')
         return None
     case0 = {'recipe': name, 'rep': rep, 'cond': cond, 'maskform': mf, 'geom': geom}
+    if full:
+        case0['full'] = True       # (recipes with a quick-tier sub-product: the step belongs to the full product)
     if rep.startswith('companion:'):
         if not c.comp_applied:
             acc.skip('companion slot not handed out in this combination')
@@ -324,17 +381,18 @@ def run_unit(unit, tier, seed):
     name = unit['recipe']
     if unit['rep'] == COMPANIONS:
         for n, (mf, rep, cond, geom) in enumerate(companion_combos(R.RECIPES[name], tier, seed)):
-            run_combo(acc, name, rep, cond, mf, seed, sample=(n % 41 == 0), geom=geom)
+            run_combo(acc, name, rep, cond, mf, seed, sample=(n % 41 == 0), geom=geom, full=(tier == 'thorough'))
         return acc
     for n, (mf, rep, cond, geom) in enumerate(combos(R.RECIPES[name], tier)):
         if rep == unit['rep']:
-            run_combo(acc, name, rep, cond, mf, seed, sample=(n % 41 == 0), geom=geom)
+            run_combo(acc, name, rep, cond, mf, seed, sample=(n % 41 == 0), geom=geom, full=(tier == 'thorough'))
     return acc
 
 
 def replay(case, seed):
     acc = Acc()
-    run_combo(acc, case['recipe'], case['rep'], case['cond'], case.get('maskform', 'cond'), seed, geom=case.get('geom', 'base'))
+    run_combo(acc, case['recipe'], case['rep'], case['cond'], case.get('maskform', 'cond'), seed, geom=case.get('geom', 'base'),
+              full=bool(case.get('full', False)))
     return acc
 
 
@@ -406,7 +464,20 @@ def describe(tier, seed):
               'catalogue columns (every subset giving a position)': ['id', 'x + y', 'skycoord', 'extra column'],
               'table classes': ['QTable', 'Table'],
               'snapshot': 'class, column order, per column values / dtype / shape / unit / column class / mask / info, meta'}
-    return {'companion_axis': {'representations': {'ma': 'MaskedArray owning a real mask array with two True pixels (2-D float arrays)',
+    from ..ref import registry_containers as RC
+    full = tier == 'thorough'
+    star = {'geometry of the odd star: cutout_center (x, y) in the 11x11 cutout': {k: ('every star centred (5.2, 5.1)' if v is None else
+                                                                                      'every star at (1.2, 5.1)' if v == 'all' else list(v))
+                                                                                  for k, v in RC.STAR_GEOMS.items()},
+            'fit_boxsize': [b for b in RC.FIT_BOXSIZES if full or b in RC.QUICK_FIT_BOXSIZES],
+            'star kinds': list(RC.STAR_KINDS), 'entries': list(RC.EPSF_ENTRIES),
+            'steps per geometry (fit_boxsize, kind, entry)': len(RC.star_steps(full)),
+            'calls': len(RC.star_steps(full)) * len(RC.STAR_GEOMS),
+            'watched': 'the EPSFStars collection with every EPSFStar / LinkedEPSFStar in it (data, weights, mask, cutout_center, origin, '
+                       'flux, fit status and exclusion flags), the ePSF'}
+    return {'container_arguments': {k: dict(v) for k, v in RC.CONTAINER_ARGS.items()},
+            'epsf_star_geometry': star,
+            'companion_axis': {'representations': {'ma': 'MaskedArray owning a real mask array with two True pixels (2-D float arrays)',
                                                    'ma_empty': 'MaskedArray owning a real all-False mask array (2-D float arrays)',
                                                    'strided': 'every second element along each axis of a larger watched array (every slot)'},
                                'representations_enumerated': list(companion_kinds(tier)),
